@@ -65,8 +65,8 @@ def c_instr(d):
         _, g, name, scope, addr, mut, cre = m
         pm = f"(PV {name} {scope} {addr} {int(g) | (int(mut) << 1) | (int(cre) << 2)})"
     else:
-        _, name, src, addr, mut = m
-        pm = f"(PA {name} {src} {addr} {int(mut)})"
+        _, name, src, addr, mut, elem = m
+        pm = f"(PA {name} {src} {addr} {int(mut) | (int(elem) << 1)})"
     return f"(I {d['uid']} {d['code']} {d['node']} {d['file']} {d['line']} {d['pops']} {d['pushes']} {fl} {pm})"
 
 
